@@ -30,12 +30,29 @@ Fixpoint zs_eqb (a b : list Z) : bool :=
   | _, _ => false
   end.
 
-(* Writer.fieldNeedsQuotes (first rune: ASCII white space; the non-ASCII
-   Unicode spaces only add quotes and are left to the correspondence run) *)
+(* unicode.IsSpace of the first rune, read off the UTF-8 bytes: the ASCII white
+   space and U+0085, U+00A0, U+1680, U+2000..U+200A, U+2028, U+2029, U+202F,
+   U+205F, U+3000 (a malformed first byte decodes to U+FFFD, not a space) *)
+Definition first_rune_is_space (f : field) : bool :=
+  match f with
+  | c :: rest =>
+      is_space_byte c ||
+      match c, rest with
+      | 194, d :: _ => (d =? 133) || (d =? 160)
+      | 225, 154 :: 128 :: _ => true
+      | 226, 128 :: d :: _ => ((128 <=? d) && (d <=? 138)) || (d =? 168) || (d =? 169) || (d =? 175)
+      | 226, 129 :: 159 :: _ => true
+      | 227, 128 :: 128 :: _ => true
+      | _, _ => false
+      end
+  | [] => false
+  end.
+
+(* Writer.fieldNeedsQuotes *)
 Definition needs_quotes (f : field) : bool :=
   match f with
   | [] => false
-  | c :: _ => zs_eqb f [92; 46] || existsb special f || is_space_byte c
+  | _ :: _ => zs_eqb f [92; 46] || existsb special f || first_rune_is_space f
   end.
 
 (* inside quotes: 'QUOTE' doubled, \r and \n verbatim (UseCRLF off) *)
